@@ -79,6 +79,23 @@ type Cross struct {
 	New   int    `clover:"v2" json:"v3"`
 }
 
+// Two distinct struct types that print the same name (function-local types).
+func localRecordA(name string, age int) interface{} {
+	type record struct {
+		Name string `clover:"name"`
+		Age  int    `clover:"age"`
+	}
+	return record{Name: name, Age: age}
+}
+
+func localRecordB(code string, notes string) interface{} {
+	type record struct {
+		Code  string `clover:"code,omitempty"`
+		Notes string
+	}
+	return record{Code: code, Notes: notes}
+}
+
 // Family holds the parameters from which the struct values are populated.
 type Family struct {
 	Name    string   `json:"name"`
@@ -172,6 +189,10 @@ func (f *Family) Build(name string) interface{} {
 			o.When = &w
 		}
 		return o
+	case "LocalA":
+		return localRecordA("n"+f.Name, f.JS)
+	case "LocalB":
+		return localRecordB(f.E2, "notes"+f.BVal)
 	case "Cross":
 		return Cross{A: "a" + f.Name, B: "b" + f.BVal, Name: "n" + f.E2, Alias: "al" + f.Name, Old: f.JS, New: f.MVal + 10}
 	case "Tagged":
@@ -264,6 +285,12 @@ func (f *Family) Expect(name string) map[string]interface{} {
 		} else {
 			m["when"] = nil
 		}
+		return m
+	case "LocalA":
+		return map[string]interface{}{"name": "n" + f.Name, "age": int64(f.JS)}
+	case "LocalB":
+		m := map[string]interface{}{"Notes": "notes" + f.BVal}
+		omit(m, "code", f.E2 == "", f.E2)
 		return m
 	case "Cross":
 		return map[string]interface{}{"B": "a" + f.Name, "A": "b" + f.BVal, "title": "n" + f.E2, "Name": "al" + f.Name, "v1": int64(f.JS), "v2": int64(f.MVal + 10)}
